@@ -35,5 +35,6 @@ if [ "$SETUP" = 1 ]; then
   for f in "$VERIF"/spec/*.tla; do
     ( cd "$VERIF/spec" && tla-sany "$(basename "$f")" > "$OUT/sany.log" 2>&1 ) || { echo "SANY failed: $f"; cat "$OUT/sany.log"; exit 2; }
   done
+  python3 "$VERIF/bin/warm.py" || exit 2
 fi
 exit 0
